@@ -491,6 +491,9 @@ def write_dataset_to_text(dataset: DataSet, fh: TextIO) -> None:
 
     # Write attributes.
     for (name, value) in attrs.items():
+        if isinstance(value, np.generic):
+            # Values read back from HDF5 are numpy scalars; write them as plain Python values.
+            value = value.item()
         fh.write("# {}: {!r}\n". format(name, value))
 
     fh.write("#\n")
